@@ -107,7 +107,16 @@ def build(family, report):
     G("restart", sbase + ordf + stubs_r + t_rs + s_rs.harness("h", A + "  Index k = nondet_Index(); SortRule selection = nondet_int();", "S, k, selection"),
       "h", "restart", [hdr + ":restart"], ["C04", "C05", "C07", "C13", "C14"], expect=["loop_invariant_step"],
       note="callees compress_H, compress_V, factorize_from, retrieve_ritzpair replaced by their contracts")
-    stubs_c = s_ff.stub() + s_rr.stub() + s_nc.stub() + s_na.stub() + s_rs.stub() + s_sr.stub()
+    # sort_ritzpair is VIRTUAL: compute() is verified against the join of the contracts of the base version (values untouched) and of the shift-mode overrides
+    # (values back-transformed exactly once, then the base version) - the overrides are proved against exactly that in shift.sort_ritzpair / cshift.sort_ritzpair
+    import copy
+    s_sv = copy.deepcopy(s_sr)
+    s_sv.frame = list(s_sv.frame) + ["S->g_backtransformed"]
+    s_sv.olds = list(s_sv.olds) + [("Index", "old_btv", "S->g_backtransformed")]
+    s_sv.post = list(s_sv.post) + [("virtual call: the dynamic type may be a shift-mode solver, whose override back-transforms the Ritz values once",
+                                    "S->g_backtransformed == old_btv || S->g_backtransformed == old_btv + 1")]
+    s_sv.exc_post = list(s_sv.exc_post) + [("counter bounded", "S->g_backtransformed == old_btv || S->g_backtransformed == old_btv + 1")]
+    stubs_c = s_ff.stub() + s_rr.stub() + s_nc.stub() + s_na.stub() + s_rs.stub() + s_sv.stub()
     G("compute", sbase + ordf + ordf2 + stubs_c + t_cp + s_cp.harness("h", A + "  SortRule selection = nondet_int(), sorting = nondet_int(); Index maxit = nondet_Index(); Scalar tol = nondet_Scalar();",
                                                                     "S, selection, maxit, tol, sorting"),
       "h", "compute", [hdr + ":compute"], ["C01", "C04", "C05", "C06", "C07", "C13", "C14"], timeout=900, expect=["loop_invariant_step"],
